@@ -1,6 +1,8 @@
 """C01 — add/sub/neg exact mod 2^BITS: case generator."""
 from vgen import *
 
+import gentie
+
 BIN = 'c01'
 DRV = 'drv_c01'
 OPS2 = ['oadd', 'osub', 'cadd', 'csub', 'sadd', 'ssub', 'wadd', 'wsub', 'absdiff',
@@ -69,3 +71,11 @@ def gen(rng, tier):
             xs = [value(rng, bits) for _ in range(cnt)]
             yield '%s %d %s' % (rng.choice(['sum', 'sumref']), bits, ','.join(hx(x) for x in xs) if xs else '-')
             k += 1
+
+
+def translate(repo, lean):
+    """(G) regenerate Ruint/Gen/Words.lean from the current source; Props/C01 proves the hand-written
+    word primitives equal to the generated `carrying_add` / `borrowing_sub`."""
+    info = gentie.gen_words(repo, lean)
+    info['obligations'] = []  # the tie theorems are ordinary theorems of Props/C01.lean (already counted)
+    return info
